@@ -14,6 +14,7 @@ mod gen_cat {
 mod kinds;
 mod ov;
 mod scalar;
+mod traits;
 mod ptr;
 mod rt;
 mod util;
@@ -28,6 +29,7 @@ fn main() {
         Some("scalar") => scalar::main(rest),
         Some("bridge") => bridge::main(rest),
         Some("core") => core::main(rest),
+        Some("traits") => traits::main(rest),
         _ => {
             eprintln!("usage: dh <ptr|kinds|dym|scalar|bridge|core> ...");
             std::process::exit(2);
